@@ -267,6 +267,9 @@ impl Sim {
         let ring = &mut self.rings[idx];
         ring.sqpoll_idle = false;
         ring.set_sq_flag(abi::SQ_NEED_WAKEUP, false);
+        if let Some(t) = super::sqpoll_wake_token() {
+            crate::sched::notify(crate::sched::Reason::Token(t));
+        }
     }
 
     fn dispatch_builtin(&mut self, idx: usize, serial: u64) {
